@@ -26,6 +26,28 @@ CHECKS = {
    note="Trusted: speclib models (iterators, list slice assignment, re.match as uninterpreted matches?/groups functions with the "
         "stated group facts), well-definedness of the recursive spec functions, A-SEM, A-GEN. Bounded part: stated alphabet/bounds.",
    technique="contract-based deductive verification (loop invariants + recursive spec functions, SMT) with a bounded stand-in for the diff-derived clause"),
+ "C14": dict(
+   category="other",
+   text="The set of strings the Version constructor accepts is proved equal to the valid-version language for ALL strings: the "
+        "real compiled re_valid_version (exact Unicode character sets from the running interpreter, '$' vs '\\Z' semantics) plus the "
+        "colon rule are turned into a regular language and compared with the Policy grammar by SMT; ':' and '-' are proved absent "
+        "from the revision group. Decomposition, str() identity and component-assignment histories are a bounded stand-in over the "
+        "pattern's minterm alphabet.",
+   design="DESIGN.md §5 C14",
+   note="Trusted: CPython's re implements the language of its parse tree; a greedy optional group at the start participates iff a match "
+        "with it exists. Bounded: strings up to length 4/5 over the minterm alphabet, seeded setter histories. upstream_version=None is "
+        "outside the domain.",
+   technique="regex-to-SMT language equivalence on the real pattern object (z3/cvc5 RegLan, minterm-compressed Unicode) + bounded stand-in"),
+ "C16": dict(
+   category="other",
+   text="For each enumerated pattern list the solver decides for ALL file names that FilesParagraph.matches - the real regex text from "
+        "the real globs_to_re under the call matches() really makes - equals the glob semantics of the property (star incl. '/', "
+        "'?', the three escapes, format errors). Unbounded in names, bounded in pattern structure; find_files_paragraph and the "
+        "pattern cache are covered by bounded histories.",
+   design="DESIGN.md §5 C16",
+   note="Trusted: rx translation of re parse trees (DOTALL, MULTILINE, \\Z, alternation with continuation), character sets from the "
+        "running interpreter. Bounded: pattern lists (all globs of <= 2 tokens over 16 tokens, sampled beyond), histories.",
+   technique="regex-to-SMT language equivalence per pattern list (all names), bounded enumeration of pattern structure and histories"),
 }
 
 NOT_YET = "check not built yet in this revision of /verif (see DESIGN.md §7 for the order of construction)"
